@@ -638,6 +638,43 @@ pub fn families() -> Vec<Box<dyn Family>> {
                 constructors_case(&a, &b, cfg.tiny, out);
             },
         ),
+
+        family(
+            "deep_many_changes",
+            "STACK DEPTH: line texts with 1500..3000 separate small hunks (Patience; every 7th hunk is reshaped by the clean-up): iter_all_changes and per-op iter_changes must reconstruct both texts; run with the stack of an ordinary thread in the small-stack stage (an unoptimised build)",
+            false,
+            1,
+            |cfg| if cfg.tiny { 1 } else { cfg.tier.pick(3, 9) },
+            |idx, cfg, out| {
+                let mut rng = Rng::for_case(cfg.seed, "c04.deep", idx);
+                let hunks = if cfg.tiny { 6 } else { rng.range(1500, 3000) };
+                let (a, b, _) = crate::gen::many_hunks_pair(hunks);
+                let render = |v: &[u32]| -> Vec<u8> {
+                    let mut t = Vec::with_capacity(v.len() * 10);
+                    for x in v {
+                        t.extend_from_slice(format!("l{}\n", x).as_bytes());
+                    }
+                    t
+                };
+                let (ta, tb) = (render(&a), render(&b));
+                out.sample(|| format!("{} hunks, {} / {} lines", hunks, a.len(), b.len()));
+                out.nontrivial(&("deep", hunks, idx));
+                out.count("deep_cases");
+                for as_str in [true, false] {
+                    out.eval();
+                    let ctx = || format!("tokenizer=lines alg=patience type={} {} hunks", if as_str { "str" } else { "[u8]" }, hunks);
+                    match guard(|| run_diff(0, Algorithm::Patience, as_str, &ta, &tb, None)) {
+                        Err(p) => out.violation("panic", format!("text diff panicked: {} | {}", p, ctx())),
+                        Ok((all, per_op)) => {
+                            judge("iter_all_changes", &all, &ta, &tb, &ctx, out);
+                            if all != per_op {
+                                out.violation("text.per_op_differs", format!("per-op iter_changes differs from iter_all_changes | {}", ctx()));
+                            }
+                        }
+                    }
+                }
+            },
+        ),
     ]
 }
 
